@@ -37,7 +37,10 @@ void p1_write(void) {
 
 /* ---- P3 ------------------------------------------------------------------ */
 #ifndef P3_LEN
-#define P3_LEN 399
+#define P3_LEN (POLYSEED_STR_SIZE + 40)      /* strings well beyond the public buffer size */
+#endif
+#ifdef P3_PREFIX_REL
+#define P3_PREFIX (POLYSEED_STR_SIZE - P3_PREFIX_REL)
 #endif
 struct in_p3_lazy { struct dep_in dep; char str[P3_LEN + 1]; };
 VF_DECL(p3_lazy)
